@@ -13,11 +13,11 @@ func init() {
 }
 
 type c07Kind struct {
-	Name string
-	IM   int
-	NMI  bool
-	Data func(p *Prog, r *mon.Rng) []uint8
-	IM0  bool
+	Name   string
+	IM     int
+	NMI    bool
+	Data   func(p *Prog, r *mon.Rng) []uint8
+	IM0    bool
 	Second bool // a maskable (mode 1) request is raised 1..3 Steps after the NMI was accepted
 }
 
